@@ -129,7 +129,7 @@ def tmInterpMidpoint(ref_point_1, ref_point_2):
     R1 = mr.MatrixExp3(mr.VecToso3(ref_point_1[3:6].reshape((3))))
     R2 = mr.MatrixExp3(mr.VecToso3(ref_point_2[3:6].reshape((3))))
     Re = (R1 @ (R2.conj().T)).conj().T
-    Re2 = mr.MatrixExp3(mr.VecToso3(mr.so3ToVec(mr.MatrixLog3((Re)/2))))
+    Re2 = mr.MatrixExp3(mr.VecToso3(mr.so3ToVec(mr.MatrixLog3(Re))/2))
     rmid = Re2 @ R1
     taar[3:6] = mr.so3ToVec(mr.MatrixLog3((rmid))).reshape((3, 1))
     return tm(taar)
